@@ -107,9 +107,9 @@ def ty_src(t):
     return t[1] + ("<" + ", ".join(ty_src(x) for x in t[2]) + ">" if t[2] else "")
 
 
-def closure(classes, root):
+def closure(classes, root, extra=()):
     order, seen = [], {}
-    todo = [root]
+    todo = [root] + list(extra)
     while todo:
         t = todo.pop(0)
         if t in seen:
@@ -289,7 +289,8 @@ def class_src(c, inner=""):
 def render_case(case):
     nm = Namer()
     home = case.get("home")
-    ty = ty_src(case["ty"])
+    binder = case.get("binder")
+    ty = TPNAMES[binder["scrut"]] if binder else ty_src(case["ty"])
     pats = case["pats"]
     if case["kind"] == "match":
         arms = ", ".join(f"{pat_src(p, nm)} -> {i}" for i, p in enumerate(pats))
@@ -299,6 +300,11 @@ def render_case(case):
     else:
         body = f"if let {pat_src(pats[0], nm)} = x {{ 1 }} else {{ 2 }}"
     fn = f"function f(x: {ty}): int = {body}"
+    if binder:
+        # the match sits in a member of a generic class `Bx`; its scrutinee's static type is a type parameter
+        tps = lambda ps: ("<" + ", ".join(TPNAMES[n] + (": " + ty_src(b) if b is not None else "") for n, b in ps) + ">") if ps else ""
+        member = ("method " if binder["method"] else "function ") + (tps(binder["fn"]) + " " if binder["fn"] else "") + f"f(x: {ty}): int = {body}"
+        return "\n".join([class_src(c) for c in case["classes"]] + [f"class Bx{tps(binder['cls'])}(val v: int) {{", "  " + member, "}"]) + "\n"
     # `home`: the match sits inside that class (its private fields are accessible there)
     lines = [class_src(c, f"\n  {fn}\n" if c["name"] == home else "") for c in case["classes"]]
     if home is None:
@@ -308,7 +314,9 @@ def render_case(case):
 
 def case_line(case, source=None):
     classes = case["classes"]
-    order, ids = closure(classes, case["ty"])
+    binder = case.get("binder")
+    bounds = [b for _, b in (binder["cls"] + binder["fn"]) if b is not None] if binder else []
+    order, ids = closure(classes, case["ty"] if case["ty"] is not None else ("int",), bounds)
     cls_ids = {c["name"]: i for i, c in enumerate(classes)}
     toks = ["chk", common.hexs(source if source is not None else render_case(case)), case["kind"], "0", "T", str(len(order))]
     for t in order:
@@ -354,6 +362,9 @@ def case_line(case, source=None):
             toks += [str(len(c["fields"]))] + ["0" if f in priv and c["name"] != home else "1" for f, _ in c["fields"]]
         else:
             toks.append("0")
+    if binder:
+        tp = lambda ps: [str(len(ps))] + [x for n, b in ps for x in (str(n), str(ids[b]) if b is not None else "-")]
+        toks += ["B", "1" if binder["method"] else "0"] + tp(binder["cls"]) + tp(binder["fn"]) + [str(binder["scrut"])]
     return " ".join(toks)
 
 
@@ -679,12 +690,29 @@ def core(ans):
     return ans.split(" #A")[0]
 
 
+def abs_named(case, absm):
+    """the model's abstract patterns in the hook's rendering: `@k.#n` -> `Class.Variant`"""
+    names = [c["name"] for c in case["classes"]]
+    return [re.sub(r"@(\d+)\.#(\d+)", lambda m: names[int(m.group(1))] + "." + VNAMES[int(m.group(2))], a) for a in absm]
+
+
+def scope_records(ans):
+    """[(class, "T=Bound,U=-")] from the `#S` section of an implementation answer"""
+    if " #S" not in ans:
+        return None
+    out = []
+    for item in ans.split(" #S", 1)[1].split():
+        c, hx = item.split(":", 1)
+        out.append((c, common.unhex(hx).decode() if hx != "-" else ""))
+    return out
+
+
 def abs_records(ans):
     """[(entry, [rendered abstract pattern, ...])] from the hook section of an implementation answer"""
     if " #A" not in ans:
         return None
     out = []
-    for item in ans.split(" #A", 1)[1].split():
+    for item in ans.split(" #A", 1)[1].split(" #S")[0].split():
         entry, hx = item.split(":", 1)
         out.append((entry, common.unhex(hx).decode().split(";") if hx != "-" else [""]))
     return out
@@ -717,11 +745,11 @@ def model_verdict(ans):
     if not ans.startswith("nonexh="):
         return {"bad": ans}
     kv = dict(x.split("=", 1) for x in ans.split(" "))
-    absm = [re.sub(r"#(\d+)", lambda m: VNAMES[int(m.group(1))], a) for a in kv.get("abs", "").split(";")]
+    absm = kv.get("abs", "").split(";")          # raw (`@class.#variant`), see abs_named
     ne = None if kv["nonexh"] == "-" else re.sub(r"#(\d+)", lambda m: VNAMES[int(m.group(1))], kv["nonexh"].replace("~", " "))
     return {"nonexh": ne, "useless": kv["useless"] == "1", "err": kv["err"] == "1",
             "panic_norm": kv["panic"] == "1", "typed": kv["typed"] == "1", "inh": kv.get("inh") == "1", "mono": kv.get("mono") == "1",
-            "hyp": kv.get("hyp") == "1", "swf": kv.get("swf") == "1", "abs": absm}
+            "hyp": kv.get("hyp") == "1", "swf": kv.get("swf") == "1", "abs": absm, "scope": kv.get("scope", "-")}
 
 
 def arity_overflow(classes, p, t):
@@ -760,6 +788,9 @@ def classify(ctx, case, ians, mans, stats):
         if not iv["err"]:
             return ("ill-typed pattern accepted without any other diagnostic", False, None)
         return None
+    unresolved = case["ty"] is None
+    if unresolved:
+        case = dict(case, ty=("int",))      # unresolvable scrutinee type: nothing to destructure
     order, _ = closure(case["classes"], case["ty"])
     py_inh = all(v is not None for v in min_inhabitants(case["classes"], order).values())
     if py_inh != mv["inh"]:
@@ -773,7 +804,9 @@ def classify(ctx, case, ians, mans, stats):
     # omitted field either) => strictly well-formed
     strict = all(well_formed(case["classes"], p, case["ty"]) for p in case["pats"])
     clean_names = not any(dup_names(p)[1] or 0 in dup_names(p)[0] for p in case["pats"])
-    if (strict and not mv["swf"]) or (mv["swf"] and clean_names and not iv["err"] and not strict):
+    if unresolved:
+        pass
+    elif (strict and not mv["swf"]) or (mv["swf"] and clean_names and not iv["err"] and not strict):
         return (f"domain of the source semantics disagrees: model swf={mv['swf']}, oracle well-formed={strict}", True, None)
     if mv["swf"] and mv["inh"]:
         stats["certified"] = stats.get("certified", 0) + 1     # replayed_*_exact applies: no hypothesis left
@@ -781,14 +814,28 @@ def classify(ctx, case, ians, mans, stats):
     stats[status] = stats.get(status, 0) + 1
     if fails:
         return ("checker breaks C07: " + fails[0], False, None)
+    if case.get("binder"):
+        # the scope the real checker built for the member (hook) against the model's `scopeOf`
+        binder = case["binder"]
+        bounds = [b for _, b in (binder["cls"] + binder["fn"]) if b is not None]
+        order_b, _ = closure(case["classes"], ("int",) if unresolved else case["ty"], bounds)
+        want = "" if mv["scope"] == "-" else ",".join(
+            TPNAMES[int(n[1:])] + "=" + ("-" if b == "-" else order_b[int(b[1:])][1])
+            for n, b in (x.split("=") for x in mv["scope"].split(",")))
+        got = [r for c, r in (scope_records(ians) or []) if c == "Bx"]
+        # contexts of class Bx in creation order: class-level validation, member signature validation,
+        # and last the context the member's body is checked in
+        if not got or got[-1] != want:
+            return (f"type parameters in scope of the member's body: checker {got[-1:]} model [{want}] (main_checker.rs type_check_module / scopeOf)", True, None)
     recs = abs_records(ians)
     if recs is not None and stats.get("__check_abs__", True):
         want = "useful" if case["kind"] == "iflet" else "counterexample"
         extra_ok = stats.get("__abs_extra__", [])
         seen = [r for r in recs if r[1] not in extra_ok]
-        if not any(r == (want, mv["abs"]) for r in seen) or any(r != (want, mv["abs"]) for r in seen):
+        mabs_n = abs_named(case, mv["abs"])
+        if not any(r == (want, mabs_n) for r in seen) or any(r != (want, mabs_n) for r in seen):
             stats_abs = "; ".join(f"{e}[{' ; '.join(a)}]" for e, a in recs) or "<no call>"
-            return (f"abstract patterns handed to the analysis differ from the model's normalisation: checker {stats_abs}  model {want}[{' ; '.join(mv['abs'])}]", True, None)
+            return (f"abstract patterns handed to the analysis differ from the model's normalisation: checker {stats_abs}  model {want}[{' ; '.join(mabs_n)}]", True, None)
     for key in ("nonexh", "useless", "err"):
         if iv[key] != mv[key]:
             return (f"model/implementation disagreement on `{key}`: impl={iv[key]!r} model={mv[key]!r}", True, None)
@@ -960,6 +1007,7 @@ def run_context_cases(ctx, cases, stats):
         src, where = rendered[i]
         recs = abs_records(ia) or []
         mabs = model_verdict(ma).get("abs")
+        mabs = abs_named(c, mabs) if mabs is not None else None
         alien = [r for r in recs if r[1] != mabs and r[1] != ["_"]]
         if alien and mabs is not None:
             ctx.violation("expression contexts: the checker handed abstract patterns to the analysis that are not the model's normalisation: "
@@ -1204,6 +1252,46 @@ def wrapper_family():
     return out
 
 
+def binder_family():
+    """Seed-independent family over the DECLARATION the scrutinee's static type resolves to: the type is a
+    type parameter bounded by an enum class (Narrow(A, B) / Wide(A, B, C)) or unbounded; the parameter
+    belongs to the enclosing generic class (visible in methods only), to the member itself, or the
+    member's parameter reuses the class parameter's name with a different bound (legal for static
+    functions: the function's own parameter wins; a collision for methods) - x static function / method
+    x match exhaustive for Narrow / for Wide / missing one, let, if-let refutable / irrefutable."""
+    NARROW, WIDE = ("cls", "C0", None), ("cls", "C1", None)
+    classes = [{"name": "C0", "generic": 0, "kind": "enum", "variants": [(0, []), (1, [])]},
+               {"name": "C1", "generic": 0, "kind": "enum", "variants": [(0, []), (1, []), (2, [])]}]
+    v = lambda i: ("V", i, [], False)
+    bodies = [("match", [v(0), v(1)]), ("match", [v(0), v(1), v(2)]), ("match", [v(0)]), ("match", [v(0), ("W",)]),
+              ("let", [v(0)]), ("let", [("I", 1)]), ("iflet", [v(0)]), ("iflet", [("R", [v(0), v(1)])]),
+              ("iflet", [("R", [v(0), v(1), v(2)])])]
+    T, U = 0, 1
+    out = []
+    for cb in (NARROW, WIDE, None):
+        cls_params = [(T, cb)]
+        configs = []
+        for fb in (NARROW, WIDE, None):
+            configs.append((False, [(T, fb)], T))       # static function, own T shadows the class's T
+            configs.append((False, [(U, fb)], U))       # static function, own U
+            configs.append((True, [(U, fb)], U))        # method, own U
+            configs.append((True, [(U, fb)], T))        # method with an own U, scrutinee of the class's T
+        configs.append((True, [], T))                   # method, the class's T
+        configs.append((True, [(T, WIDE if cb != WIDE else NARROW)], T))   # method reusing the name: collision
+        configs.append((False, [], T))                  # static function using the class's T: not in scope
+        for method, fn_params, scrut in configs:
+            # the language rule, implemented here independently of the Lean model: innermost binder
+            scope = (cls_params + fn_params) if method else fn_params
+            hit = [b for n, b in scope if n == scrut]
+            # (for a colliding method the checker resolves to the FIRST entry and reports the collision)
+            ty = hit[0] if hit else None
+            for kind, pats in bodies:
+                out.append({"classes": classes, "ty": ty, "kind": kind, "pats": pats, "home": None,
+                            "binder": {"method": method, "cls": cls_params, "fn": fn_params, "scrut": scrut},
+                            "malformed": ty is None or (method and any(n == T for n, _ in fn_params))})
+    return out
+
+
 def gen_object_case(rng):
     """Stream `object-reorder`: a struct of 2-3 enum-typed fields matched by object patterns whose
     fields are written in a random order, each with a refutable sub-pattern (or `_`), in several arms -
@@ -1292,6 +1380,9 @@ def run(ctx):
     wfam = wrapper_family()
     run_cases(ctx, wfam, "deterministic family (single-variant wrappers, refutable leaf at every path)", stats); total += len(wfam)
     stats["wrapper_family"] = len(wfam)
+    bfam = binder_family()
+    run_cases(ctx, bfam, "deterministic family (type-parameter scrutinees: which declaration is in scope)", stats); total += len(bfam)
+    stats["binder_family"] = len(bfam)
     corpus.append(F1_CASE)   # regression input of the fixed finding C07-F1 (must not panic any more)
     run_cases(ctx, corpus, "corpus", stats); total += len(corpus)
     n_valid = ctx.scale(1400, 40000)
@@ -1338,7 +1429,7 @@ def run(ctx):
         "rule": "one evaluation = one generated module (1-4 enum/struct/generic classes, recursive and nested) with one match (1-6 arms) / destructuring let / if-let over variant, tuple, object, wildcard, id, or-patterns of depth <= 4, type-checked by the real checker and by the model; non-trivial = distinct implementation answer carrying a NonExhaustiveMatch counterexample or an irrefutable-if-let diagnostic",
         "samples": samples, "traces_validated_against_impl": total,
         "case_kinds": stats["kinds"], "expression_contexts": stats["contexts"], "impl_outcomes": stats["outcomes"],
-        "oracle": {k: v for k, v in stats.items() if k in ("checked", "skipped-size", "skipped-malformed", "skipped-uninhabited", "illtyped", "uninhabited", "certified", "deterministic_family", "wrapper_family")},
+        "oracle": {k: v for k, v in stats.items() if k in ("checked", "skipped-size", "skipped-malformed", "skipped-uninhabited", "illtyped", "uninhabited", "certified", "deterministic_family", "wrapper_family", "binder_family")},
         "pending": PENDING})
     ctx.assumptions += [
         "every type reachable from the scrutinee type has a value (Inhabited'); for uninhabited recursive enums the algorithm still asks for all variants (stated in DESIGN section 8 C07)",
